@@ -85,11 +85,7 @@ impl Drop for Occ<'_> {
 /// keeps yielding is re-queued on its worker's local queue, which is served before the
 /// global queue - the granter (spawned from the main thread) would starve
 fn gate_wait(sh: &Shared) {
-    let mut backoff = 500u64;
-    while !sh.gate.load(Ordering::SeqCst) {
-        sleep_ns(backoff);
-        backoff = (backoff * 2).min(200_000);
-    }
+    poll_until(|| sh.gate.load(Ordering::SeqCst), 10_000_000_000);
 }
 
 fn wait_ticket(sh: &Shared) {
